@@ -202,6 +202,11 @@ class SegmentTensor(PolytopeTensor):
         result._line = transformation.apply(result._line)
         return result
 
+    def __setitem__(self, key: TensorIndex, value: Tensor | npt.ArrayLike) -> None:
+        super().__setitem__(key, value)
+        # the supporting line depends on the vertices
+        self._line = join(*self.vertices)
+
     def __getitem__(self, index: TensorIndex) -> Tensor | np.generic:
         result = super().__getitem__(index)
 
@@ -401,6 +406,12 @@ class PolygonTensor(PolytopeTensor):
         if result.dim > 2:
             result._plane = join(*result.vertices[: result.dim])
         return result
+
+    def __setitem__(self, key: TensorIndex, value: Tensor | npt.ArrayLike) -> None:
+        super().__setitem__(key, value)
+        # the supporting plane depends on the vertices
+        if self.dim > 2:
+            self._plane = join(*self.vertices[: self.dim])
 
     @property
     def vertices(self) -> list[PointTensor]:
